@@ -471,7 +471,9 @@ SPECS = {
         "base": {"label": lambda: "a", "definition": lambda: "d", "name": lambda: "n:a"},
         "alts": dict(
             {"label": [("a2", lambda: "a2")], "definition": [("d2", lambda: "d2")], "name": [("n:b", lambda: "n:b")],
-             "+extra": [("foo", lambda: "bar")]},
+             # extra (undeclared) fields: one, and the same two given in both orders (equal terms, different dict order)
+             "+extra": [("foo", lambda: {"foo": "bar"}), ("foo_baz", lambda: {"foo": "bar", "baz": "qux"}),
+                        ("baz_foo", lambda: {"baz": "qux", "foo": "bar"})]},
             **{f: [("z", lambda: "zz")] for f in _TERM_STR_FIELDS}),
     },
     "Tag": {
@@ -550,7 +552,10 @@ def build_obj(cname, choices):
     kwargs = {_kw(cls, f): mk() for f, mk in sp["base"].items()}
     for f, lab in choices:
         mk = dict(sp["alts"][f])[lab]
-        kwargs[_kw(cls, f)] = mk()
+        if f == "+extra":
+            kwargs.update(mk())
+        else:
+            kwargs[_kw(cls, f)] = mk()
     return cls(**kwargs)
 
 
